@@ -345,9 +345,17 @@ def _run_one(case):
     out = prop.impl(case)
   except CaseTimeout:
     out = {'timeout': True}
-  except Exception as e:     # a harness bug, not an implementation outcome
-    out = {'harness_exception': '%s: %s' % (type(e).__name__, e),
-           'trace': traceback.format_exc()[-1500:]}
+  except Exception as e:
+    frames = traceback.extract_tb(e.__traceback__)
+    lib = [f for f in frames if f.filename.startswith(os.path.join(REPO, 'pyglove'))]
+    if lib:
+      # raised inside the library and not anticipated by the harness: an implementation outcome
+      # (reported by the oracle step as a failure of the property), not an infrastructure error
+      out = {'impl_exception': type(e).__name__, 'message': str(e)[:300],
+             'where': '%s:%d' % (os.path.relpath(lib[-1].filename, REPO), lib[-1].lineno)}
+    else:                    # a harness bug, not an implementation outcome
+      out = {'harness_exception': '%s: %s' % (type(e).__name__, e),
+             'trace': traceback.format_exc()[-1500:]}
   finally:
     signal.setitimer(signal.ITIMER_REAL, 0)
   return out
@@ -413,6 +421,9 @@ def check_case(prop, case):
     raise InfraError('harness exception on witness: %s\n%s' % (out['harness_exception'], out.get('trace')))
   if isinstance(out, dict) and out.get('timeout'):
     return out, {'signature': 'timeout', 'what': 'implementation did not return within %ss' % prop.case_timeout_s}
+  if isinstance(out, dict) and out.get('impl_exception'):
+    return out, {'signature': 'unexpected-exception:%s' % out['impl_exception'],
+                 'what': 'the library raised %s (%s) at %s' % (out['impl_exception'], out.get('message'), out.get('where'))}
   return out, prop.oracle(case, out)
 
 
@@ -644,6 +655,10 @@ def _evaluate(ctx, prop, cases, jobs, driver_ok, known, search=False):
     if isinstance(io, dict) and io.get('timeout'):
       stats['timeouts'] += 1
       fail = {'signature': 'timeout', 'what': 'implementation did not return within %ss' % prop.case_timeout_s}
+    elif isinstance(io, dict) and io.get('impl_exception'):
+      fail = {'signature': 'unexpected-exception:%s' % io['impl_exception'],
+              'what': 'the library raised %s (%s) at %s on an input the harness expects it to handle' % (
+                  io['impl_exception'], io.get('message'), io.get('where'))}
     else:
       fail = prop.oracle(c, io)
       if mo is not None:
